@@ -192,6 +192,7 @@ def run(ctx):
                           "the explicit determinant-space construction is "
                           "not orthonormal (harness engine defect)",
                           {"variant": variant, "seed": space.seed}, False)
+    isr_explicit.certify_ortho(ctx, "C04", space, psi, E, variants, order)
 
 
 def replay(ctx, rep):
